@@ -19,7 +19,7 @@ RULE = (
     "offset of every container), truncation/extension, removal of each non-newest chain element (base included), "
     "substitution by the same-index container of a foreign record with identical content, substitution by a fork, "
     "patch stacked on the other fork, duplicated container, extra foreign container, nulled hash of a non-newest "
-    "container, edited prev_patch/record_uuid/patch_uuid, duplicated patch_uuid, manifest removed/flipped/replaced (as sidecar, and handed over via manifest_file= with the sidecar intact), stub "
+    "container, chain faults below an uncommitted newest container (predecessor removed / foreign / forked / flipped), edited prev_patch/record_uuid/patch_uuid, duplicated patch_uuid, manifest removed/flipped/replaced (as sidecar, and handed over via manifest_file= with the sidecar intact), stub "
     "as non-base, baseless sets opened with allow_baseless=True (flips, gap, foreign container); each opened by explicit list and by name in r (sampled: r+/a, which must also not create a file). "
     "Oracle: a faulty set must raise. Controls that must open: unmutated set, ASCII-safe change in user-block padding, "
     "removal of the newest container, fork as newest, uncommitted newest, missing sidecar of a non-newest container. "
@@ -188,6 +188,30 @@ def run_record(rng, acc, d, clsname, tier, rec_seed=None):
     r["unc"] = 1
     r.close(commit=False)
     must_open(["uncommitted-newest"], sorted(W.glob("*.ih5")), None, W)
+    # ---- chain faults BELOW an uncommitted newest container (an interrupted session): the rest of the chain is still checked
+    unc_name = sorted(W.glob("*.ih5"), key=lambda q: RE.disk_ublock(q)["patch_index"])[-1].name
+    unc_bytes = (W / unc_name).read_bytes()
+    def with_unc(files):
+        (W / unc_name).write_bytes(unc_bytes)
+        return list(files) + [W / unc_name]
+    st = R.stage(W, R.files[:-1])  # direct predecessor of the interrupted patch removed
+    must_fail(["below-uncommitted", "predecessor-removed"], with_unc(st))
+    st = R.stage(W)  # ... replaced by the same-index container of the foreign twin
+    shutil.copy(R.ffiles[-1], st[-1])
+    must_fail(["below-uncommitted", "predecessor-foreign"], with_unc(st))
+    if R.n >= 2:
+        fk = R.make_fork(R.n - 1, rng)  # ... replaced by another fork of the same index
+        st = R.stage(W)
+        shutil.copy(fk[0], st[-1])
+        if RE.sidecar(fk[0]).exists():
+            shutil.copy(RE.sidecar(fk[0]), RE.sidecar(st[-1]))
+        must_fail(["below-uncommitted", "predecessor-forked"], with_unc(st))
+        st = R.stage(W)  # ... payload of the predecessor flipped
+        b = bytearray(st[-1].read_bytes())
+        b[UB + 8 + rng.randrange(len(b) - UB - 8)] ^= 0x10
+        st[-1].unlink()
+        st[-1].write_bytes(bytes(b))
+        must_fail(["below-uncommitted", "predecessor-flipped"], with_unc(st))
     i = rng.randrange(1, R.n)
     fork = R.make_fork(i, rng)
     st = R.stage(W, R.files[:i])
@@ -469,7 +493,7 @@ def inconclusive(cov):
     c = cov["counters"]
     r = []
     need = ["faults.flip", "faults.remove", "faults.foreign-subst", "faults.duplicate", "faults.ub-hash-nulled",
-            "faults.manifest-flip", "flips_with_identical_stat", "faults.explicit-manifest", "controls.explicit-manifest-exact-copy", "faults.stub-as-patch", "faults.stacked-on-other-fork", "controls.unmutated",
+            "faults.manifest-flip", "faults.below-uncommitted", "flips_with_identical_stat", "faults.explicit-manifest", "controls.explicit-manifest-exact-copy", "faults.stub-as-patch", "faults.stacked-on-other-fork", "controls.unmutated",
             "controls.padding-edit", "controls.fork-as-newest", "controls.uncommitted-newest", "controls.baseless", "faults.baseless-flip"]
     for k in need:
         if not c.get(k):
